@@ -34,6 +34,7 @@ PROPS = {
 STATE_CAP = 2_000_000
 RUN_CPU_LIMIT_S = 120  # CPU seconds per seeded run; the heaviest runs measured use 3-12 s
 CHUNK_TIMEOUT_S = 600
+MAX_VIOLATIONS_PER_CHUNK = 3
 
 
 def load(prop):
@@ -154,6 +155,12 @@ def _chunk(args):
                         "orig_len": len(case["cmds"]) if case else None,
                     }
                 )
+                if len(violations) >= MAX_VIOLATIONS_PER_CHUNK:
+                    # the property is broken for many runs: minimising every one of them
+                    # would take the batch far beyond its time; the rest of this chunk is
+                    # not executed (the evidence counts the runs that were)
+                    hi = i + 1
+                    break
         return {
             "lo": lo,
             "hi": hi,
